@@ -48,6 +48,11 @@ def run(prog):
         for l, ds in f.defs().items():
             if f.local_ty(l) != "bool" or not f.local_name(l) or len(ds) < 2:
                 continue
+            # `val` / `residual`: the bindings the `?` operator expands to are not variables of the program
+            def _try_binding(rv):
+                return rv["k"] == "use" and is_place(rv["a"]) and any(isinstance(e, dict) and e.get("dc") == "Continue" for e in proj(rv["a"]))
+            if any(d[2] == "assign" for d in ds) and all(_try_binding(d[3]) for d in ds if d[2] == "assign"):
+                continue
             if lps is None:
                 lps = loops_of(f)
             if not lps:
@@ -70,7 +75,10 @@ def run(prog):
                         continue
                     over.append((bb, idx))
                 key = "%s/%s" % (norm_key(f.norm), f.local_name(l))
-                declared_outside = any(d[0] not in lp.body for d in ds)
+                # declared (initialised) before the loop: a definition outside the body from which the loop is entered. A
+                # definition on a path that has left the loop for good (e.g. the copy of a `?` binding in a duplicated exit
+                # path, kq/inline.py) is not a declaration of a variable the loop accumulates into.
+                declared_outside = any(d[0] not in lp.body and lp.h in f.reach_from(d[0]) for d in ds)
                 if not acc and not (over and declared_outside):
                     continue
                 if not acc and key in OVERWRITTEN_BY_DESIGN:
